@@ -26,13 +26,9 @@ Definition codes_eqb (a b : list (list N)) : bool := list_eqb (list_eqb N.eqb) a
 
 Definition flag (b : bool) (code : N) : list N := if b then [] else [code].
 
-(** per stream verdict: 0 = satisfies the property, 1 = instance of the residual finding F-C02-2
-    (Shutdown of a periodic delta reader while a callback fails), 2 = violation *)
+(** per stream verdict: 0 = satisfies the property, 2 = violation *)
 Definition stream_verdict (rc : rcfg) (r i : nat) (h : list op) (outs : list points) : N :=
-  if stream_ok false rc r i h outs then 0
-  else if match rk rc with RPeriodic => true | RManual => false end &&
-          negb (shutdown_clean r h false) && stream_ok true rc r i h outs
-       then 1 else 2.
+  if stream_ok false rc r i h outs then 0 else 2.
 
 Definition verdicts (readers : list rcfg) (ninst : nat) (h : list op) (obs : list (list (list points))) : list N :=
   flat_map (fun rro => map (fun io => stream_verdict (snd (fst rro)) (fst (fst rro)) (fst io) h (snd io))
@@ -50,8 +46,7 @@ Definition check_case (c : case) : list N :=
       let vs := verdicts readers n h obs in
       let codes_ok := codes_eqb (map (fun rr => codes (snd rr) (fst rr) h false false false) (enum_from 0 readers)) errs in
       flag (obs_eqb m obs && codes_eqb (model_codes readers h) errs) V_MISMATCH ++
-      (if negb (shape_ok readers n obs) || existsb (N.eqb 2) vs || negb codes_ok then [V_SPECFAIL]
-       else if existsb (N.eqb 1) vs then [V_KNOWN 2] else []) ++
+      flag (shape_ok readers n obs && negb (existsb (N.eqb 2) vs) && codes_ok) V_SPECFAIL ++
       flag (forallb (fun v => negb (v =? 2)) (verdicts readers n h m)) V_MODELSPEC
   | CConc readers nonneg adds obs =>
       flag (shape_ok readers (length adds) obs &&
